@@ -15,6 +15,9 @@ CHECKS = {
  'C02': dict(cat='exploration', tech='bounded exhaustive enumeration of operator x type programs and operand values; emitted IL executed on an IL machine model and compared with a C11 reference evaluator (itself checked against gcc and clang)',
              text='Every operator x operand-type combination at depth 1 and the depth-2 compositions of the tier are compiled by the real compiler (each from a fresh forked state) and the emitted effect is executed by ILVM on the complete cross product of the operand domains (8-bit operands exhaustively, wider ones on boundary sets, shift counts 0..65); the observed int64_t result must equal the strict C reference. Disagreements are attributed to a known finding only if the IL equals the reference under exactly that deviation rule on every state.',
              note='Trusted: ILVM semantics of the RzIL core operators (DESIGN.md 3/E2; Rizin itself is not in the sandbox) and the reference evaluator vf/ceval.py, which the same run cross-validates against gcc -O0 -fwrapv and clang on every non-UB state. Wide operands are covered on boundary values only.', ref='4 C02'),
+ 'C09': dict(cat='exploration', tech='exhaustive enumeration of literal spellings x foldable operators (folded form and typed-variable partner), sizeof and constant-condition programs; IL machine vs C11 reference with 6.4.4.1 literal typing (gcc/clang-validated)',
+             text='Every valid literal spelling (decimal/hex x 7 suffixes x 23 boundary values) alone, under + - ~, next to variables, as ?: / if condition; all ordered pairs of a boundary literal set under + - * / and the six comparisons, both folded and as typed-variable (unfolded) partners; sizeof of every type and operand kind; constant ?: with dead arms that mention live operands; programs that must be rejected (literal division by zero, literals above 2^64-1). The observed 64-bit result must equal the C reference; the emitted text of folded programs is also subject to the static checks.',
+             note='Trusted: literal typing in vf/cparse.py (C11 6.4.4.1, LP64) cross-validated against gcc/clang in the same run; ILVM.', ref='4 C09'),
  'C10': dict(cat='exploration', tech='exhaustive enumeration of generated programs and the whole corpus; every emitted text sort-checked on all paths by an independent checker mirroring rz_il_validate',
              text='Every text the compiler emits for all accepted corpus parts and the bundled sub-routines in both layouts, and for a generated program space (operator/type space of C02, all assignment operators x type pairs, comparison/logical results mixed with arithmetic, re-use, folding, control flow) in both layouts, is parsed by an independent reader and sort-checked statically on every BRANCH/ITE arm and loop body (not only the path a state would take), including the single-width rule for locals against the widths declared in the C source.',
              note='Trusted: the sort rules in vf/il.py (written from the RzIL core theory; rz_il_validate itself is not in the sandbox) and the independent table of plugin macro signatures.', ref='4 C10'),
